@@ -101,6 +101,12 @@ def check_case(ctx, case):
 def run_shard(ctx, shard):
     rng = rng_for(ctx.seed, ID, shard['name'])
     circles = ctx.extra['circles']
+    if shard.get('bundled'):
+        for name, rows in gen.bundled_whole(with_legend=True):
+            for sc_ in (8.0, 1.0, 37.5):
+                ctx.run_case({'input': '\n'.join(rows) + '\n', 'scale': sc_, 'flags': 0})
+            ctx.tag('bundled_documents')
+        return
     for i in range(shard['n']):
         q = rng.random()
         if q < 0.35:
@@ -145,7 +151,7 @@ def execute(run):
     info = driver_info(binary)
     extra = {'circles': info['circles']}
     n, k = (2500, 16) if run.tier == 'quick' else (9000, 32)
-    run.run_shards(binary, [{'name': 'canvas-%d' % i, 'n': n} for i in range(k)], extra=extra)
+    run.run_shards(binary, [{'name': 'bundled', 'n': 0, 'bundled': True}] + [{'name': 'canvas-%d' % i, 'n': n} for i in range(k)], extra=extra)
 
 
 if __name__ == '__main__':
